@@ -508,7 +508,7 @@ GuardsRetResolve(st, e) ==
            st.fresh \ Siblings(st, Range(e.res.ids)) = {}, NONE),
      G("failed_resolve_returns_nothing", {"C15"}, err # {} => e.res.k = "none", NONE),
      \* a retry after a failure behaves like a first attempt: a success carries an instance of the registration
-     G("success_carries_an_instance", {"C15"}, err = {} => (e.res.k = "inst" /\ Len(e.res.ids) = 1), NONE)}
+     G("success_carries_an_instance", {"C15", "C02"}, err = {} => (e.res.k = "inst" /\ Len(e.res.ids) = 1), NONE)}
 
 GuardsRetGroup(st, e) ==
     LET cfg == st.cfg
@@ -621,7 +621,13 @@ AbuseTable ==
      reentrant_resolve_in_ctor |-> AOK, reentrant_child_scope_in_ctor |-> AOK,
      reentrant_provider_close_from_singleton |-> AOK,
      \* a result object whose constructor leaves a non-last field nil: every other field keeps exactly its own identity
-     out_nil_field_scoped |-> AOK, out_nil_field_transient |-> AOK, out_nil_field_singleton |-> AOK]
+     out_nil_field_scoped |-> AOK, out_nil_field_transient |-> AOK, out_nil_field_singleton |-> AOK,
+     \* the goroutine that claimed a scoped construction ends inside the constructor (runtime.Goexit): later resolutions return
+     ctor_goexit_releases_waiters |-> AOK,
+     \* a failing instance Close whose error wraps one of the container's sentinels is reported like any other failure
+     close_error_wrapping_sentinel_own_0 |-> AOK, close_error_wrapping_sentinel_own_1 |-> AOK,
+     close_error_wrapping_sentinel_parent_0 |-> AOK, close_error_wrapping_sentinel_parent_1 |-> AOK,
+     close_error_wrapping_sentinel_provider_0 |-> AOK, close_error_wrapping_sentinel_provider_1 |-> AOK]
 \* calls of the battery that also speak for other properties
 ReClose == {"C12", "C13", "C10"}
 AbuseTags == [value_disposables_closed |-> {"C10", "C12"},
@@ -630,7 +636,11 @@ AbuseTags == [value_disposables_closed |-> {"C10", "C12"},
               reentrant_resolve_while_closing |-> {"C13"}, reentrant_create_while_closing |-> {"C13"},
               reentrant_resolve_in_ctor |-> {"C02", "C10"}, reentrant_child_scope_in_ctor |-> {"C02", "C10"},
               reentrant_provider_close_from_singleton |-> ReClose,
-              out_nil_field_scoped |-> {"C04"}, out_nil_field_transient |-> {"C04"}, out_nil_field_singleton |-> {"C04", "C01"}]
+              out_nil_field_scoped |-> {"C04", "C10"}, out_nil_field_transient |-> {"C04", "C10"}, out_nil_field_singleton |-> {"C04", "C01", "C10"},
+              ctor_goexit_releases_waiters |-> {"C09", "C02"},
+              close_error_wrapping_sentinel_own_0 |-> {"C12"}, close_error_wrapping_sentinel_own_1 |-> {"C12"},
+              close_error_wrapping_sentinel_parent_0 |-> {"C12"}, close_error_wrapping_sentinel_parent_1 |-> {"C12"},
+              close_error_wrapping_sentinel_provider_0 |-> {"C12"}, close_error_wrapping_sentinel_provider_1 |-> {"C12"}]
 TagsOfAbuse(call) == {"C15"} \cup (IF call \in DOMAIN AbuseTags THEN AbuseTags[call] ELSE {})
 
 GuardsAbuse(e) ==
